@@ -1,6 +1,7 @@
 package harness
 
 import (
+	"encoding/hex"
 	"fmt"
 	"os"
 	"math/big"
@@ -15,7 +16,9 @@ import (
 
 	sdk "github.com/cosmos/cosmos-sdk/types"
 	stakingtypes "github.com/cosmos/cosmos-sdk/x/staking/types"
+	"github.com/ethereum/go-ethereum/common"
 	"github.com/tellor-io/layer/utils"
+	bridgetypes "github.com/tellor-io/layer/x/bridge/types"
 	disputetypes "github.com/tellor-io/layer/x/dispute/types"
 	minttypes "github.com/tellor-io/layer/x/mint/types"
 	oracletypes "github.com/tellor-io/layer/x/oracle/types"
@@ -307,6 +310,15 @@ func runPayoutHistory(t *testing.T, seed int64, blocks int, f06 bool) (string, m
 				skip = r.Intn(nVals)
 			}
 			val := w.randValue()
+			// a well-formed deposit report (ethereum sender, recipient on this chain, amount and claim tip in 10^-18)
+			depVal := func() string {
+				amt := bmul(pick(r, bi(1), bi(5), bi(1_000_000), bi(123_456_789), bi(int64(1+r.Intn(1_000_000_000)))), c14e12)
+				if r.Intn(3) == 0 {
+					amt = badd(amt, bi(int64(r.Intn(1_000_000)))) // below one loya: dropped by the conversion
+				}
+				tip := pick(r, bi(0), bi(0), bquo(amt, bi(2)), bquo(amt, bi(100)), amt, bi(999_999_999_999), bmul(bi(1), c14e12))
+				return hex.EncodeToString(c14pack(common.BytesToAddress([]byte{byte(r.Intn(250) + 1)}), w.accts[r.Intn(len(w.accts))].String(), amt, tip))
+			}()
 			for i := 0; i < nVals; i++ {
 				if i == skip {
 					continue
@@ -317,7 +329,7 @@ func runPayoutHistory(t *testing.T, seed int64, blocks int, f06 bool) (string, m
 					v = w.randValue()
 				}
 				if depositRounds && (string(qd) == string(w.bridgeQueries[0]) || string(qd) == string(w.bridgeQueries[1])) {
-					v = pick(r, "000000000000000000000000000000000000000000000058528649cf80ee0000", randHex(r, 256), randHex(r, 64))
+					v = pick(r, "000000000000000000000000000000000000000000000058528649cf80ee0000", randHex(r, 256), randHex(r, 64), depVal, depVal, depVal, depVal)
 				}
 				do("SubmitValue", i, nil, func(ctx sdk.Context) error {
 					_, err := w.oracleMS.SubmitValue(ctx, &oracletypes.MsgSubmitValue{Creator: w.accts[i].String(), QueryData: qd, Value: v})
@@ -343,9 +355,49 @@ func runPayoutHistory(t *testing.T, seed int64, blocks int, f06 bool) (string, m
 		steps = append(steps, coqStep(res, w.snap(), nil))
 		stats[fmt.Sprintf("%s/%d", res.name, res.result)]++
 	}
+	// the deposit reports become claimable after 12 hours: claims by the recipient itself and by others, of every
+	// aggregate of the two deposit ids, also repeated; the claim carries the reported amount (in loya) it should mint
+	if w.halted == "" && depositRounds {
+		res := w.beginBlock(12*time.Hour + time.Duration(r.Intn(3))*time.Second)
+		steps = append(steps, coqStep(res, w.snap(), nil))
+		for k := 0; k < 8; k++ {
+			dep := uint64(1 + r.Intn(2))
+			qid := utils.QueryIDFromData(w.bridgeQueries[dep-1])
+			idx := uint64(pick(r, 0, 0, 0, 1, 1, 2, 3))
+			claimer := r.Intn(len(w.accts))
+			amount := bi(0)
+			if agg, _, err := w.s.Oraclekeeper.GetAggregateByIndex(w.ctx, qid, idx); err == nil && agg != nil {
+				if raw, err := hex.DecodeString(agg.AggregateValue); err == nil {
+					if vals, err := c14valueArgs.Unpack(raw); err == nil {
+						amount = bquo(vals[2].(*big.Int), c14e12)
+						if rcpt, err := sdk.AccAddressFromBech32(vals[1].(string)); err == nil && r.Intn(2) == 0 {
+							claimer = w.acctID(rcpt)
+							if claimer < 0 {
+								claimer = r.Intn(len(w.accts))
+							}
+						}
+					}
+				}
+			}
+			res := do("ClaimDeposits", claimer, []*big.Int{amount}, func(ctx sdk.Context) error {
+				_, err := w.bridgeMS.ClaimDeposits(ctx, &bridgetypes.MsgClaimDepositsRequest{Creator: w.accts[claimer].String(), DepositIds: []uint64{dep}, Indices: []uint64{idx}})
+				return err
+			})
+			if res.result != 0 {
+				e := res.errMsg
+				if len(e) > 50 {
+					e = e[:50]
+				}
+				stats["ClaimDeposits error: "+e]++
+			}
+		}
+		res = w.endBlock()
+		steps = append(steps, coqStep(res, w.snap(), nil))
+	}
 	// finally everybody withdraws: no entitled withdrawal may fail for lack of funds
 	if w.halted == "" {
-		w.beginBlock(time.Second)
+		res := w.beginBlock(time.Second)
+		steps = append(steps, coqStep(res, w.snap(), nil))
 		for a := 0; a < nVals+3; a++ {
 			a := a
 			res := do("WithdrawTip", a, nil, func(ctx sdk.Context) error {
@@ -356,7 +408,7 @@ func runPayoutHistory(t *testing.T, seed int64, blocks int, f06 bool) (string, m
 				stats["WithdrawTip/insufficient"]++
 			}
 		}
-		res := w.endBlock()
+		res = w.endBlock()
 		steps = append(steps, coqStep(res, w.snap(), nil))
 	}
 	return fmt.Sprintf("Hist %s %s", init.coq(), clist(steps)), stats, w.halted
@@ -472,7 +524,29 @@ func runDisputeHistory(t *testing.T, seed int64) (string, map[string]int, string
 			}
 		}
 	}
+	// the later voters nVals+3 and nVals are tippers (the users group of a vote) in two thirds of the histories; in half
+	// of those they tip again between the rounds of the dispute
+	tippers := r.Intn(3) != 0
+	tipAgain := tippers && r.Intn(2) == 0
+	tipNow := func(a int) {
+		amt := pick(r, bi(1_000_000), bi(2_500_000), bi(10_000_000), bi(int64(1_000_000+r.Intn(5_000_000))))
+		qd := pick(r, w.queries...)
+		res := w.deliver("Tip", a, []*big.Int{amt}, func(ctx sdk.Context) error {
+			_, err := w.oracleMS.Tip(ctx, &oracletypes.MsgTip{Tipper: w.accts[a].String(), QueryData: qd, Amount: w.coin(amt)})
+			return err
+		})
+		steps = append(steps, coqStep(res, w.snap(), nil))
+		stats[fmt.Sprintf("%s/%d", res.name, res.result)]++
+	}
 	init := w.snap()
+	if tippers {
+		block(time.Duration(1+r.Intn(3))*time.Second, func() {
+			tipNow(nVals + 3)
+			if r.Intn(2) == 0 {
+				tipNow(nVals)
+			}
+		})
+	}
 	// a report by reporter 0 (and 1) on the scheduled query, aggregated
 	for b := 0; b < 4 && w.halted == ""; b++ {
 		block(time.Duration(1+r.Intn(3))*time.Second, func() {
@@ -657,6 +731,14 @@ func runDisputeHistory(t *testing.T, seed int64) (string, map[string]int, string
 		// the vote period (2 days) ends: tally; the next round must come before the 3-day end of the dispute
 		block(48*time.Hour+time.Duration(r.Intn(3))*time.Second, nil)
 		if round < rounds {
+			if tipAgain {
+				block(time.Duration(1+r.Intn(3))*time.Second, func() {
+					tipNow(nVals + 3)
+					if r.Intn(2) == 0 {
+						tipNow(nVals)
+					}
+				})
+			}
 			continue
 		}
 		block(pick(r, 12*time.Hour, 24*time.Hour+time.Second, 72*time.Hour+time.Second), nil)
@@ -680,7 +762,7 @@ func runDisputeHistory(t *testing.T, seed int64) (string, map[string]int, string
 						_, err := w.disputeMS.WithdrawFeeRefund(ctx, &disputetypes.MsgWithdrawFeeRefund{CallerAddress: w.accts[a].String(), PayerAddress: w.accts[a].String(), Id: d})
 						return err
 					})
-					nextParams = []*big.Int{new(big.Int).SetUint64(d)}
+					nextParams = []*big.Int{new(big.Int).SetUint64(d), w.voterPot(d)}
 					do("ClaimReward", a, nil, func(ctx sdk.Context) error {
 						_, err := w.disputeMS.ClaimReward(ctx, &disputetypes.MsgClaimReward{CallerAddress: w.accts[a].String(), DisputeId: d})
 						return err
